@@ -119,3 +119,46 @@ func VerifC01_step() {
 	}
 	vrt.Assert(sumAfter == sumBefore+sumW-sumBefore, "C01/step-sum-becomes-total-weight")
 }
+
+// VerifC01_reload: k selections, then a reload (Update) with the same addresses and weights, then a full
+// window of W selections: the window is still exact ("every starting point after a (re)load").
+func VerifC01_reload() {
+	n := vrt.Range("n", 1, vrt.Param("N", 3))
+	wmax := vrt.Param("WMAX", 5)
+	w := make([]int, 4)
+	sum := 0
+	for i := 0; i < n; i++ {
+		w[i] = vrt.Int("w")
+		vrt.Assume(w[i] >= 1 && w[i] <= wmax)
+		sum += w[i]
+	}
+	vrt.Assume(sum <= wmax)
+	brr := NewBalanceRR("sc")
+	brr.Init(mkConfC01(n, w))
+	k := vrt.Range("k", 0, wmax-1)
+	for step := 0; step < k; step++ {
+		_, err := brr.Balance(WrrSmooth, nil)
+		vrt.Assert(err == nil, "C01/selects")
+	}
+	brr.Update(mkConfC01(n, w))
+	vrt.Assert(len(brr.backends) == n, "C01/reload-keeps-backends")
+	count := make([]int, 4)
+	for step := 0; step < wmax; step++ {
+		if step >= sum {
+			break
+		}
+		b, err := brr.Balance(WrrSmooth, nil)
+		vrt.Assert(err == nil && b != nil, "C01/selects")
+		idx := -1
+		for i := 0; i < n; i++ {
+			if b.Addr == addrsC01[i] {
+				idx = i
+			}
+		}
+		vrt.Assert(idx >= 0, "C01/selects-member")
+		count[idx]++
+	}
+	for i := 0; i < n; i++ {
+		vrt.Assert(count[i] == w[i], "C01/exact-share-after-reload")
+	}
+}
